@@ -346,3 +346,10 @@ func RefTZ64(x uint64) int {
 // ClockJump lets an arbitrary amount of time pass before the next clock read
 // (the engine otherwise assumes consecutive reads are less than an hour apart).
 func ClockJump() {}
+
+// SharesMemory reports whether anything reachable from root refers to the
+// backing array of buf (decided on the engine's heap graph; natively false).
+func SharesMemory(root any, buf []byte) bool { return false }
+
+// Unshare ends the lockset logging started by Share (engine only).
+func Unshare() {}
